@@ -89,10 +89,10 @@ Qed.
 
 (* the node recorded for an emit call stands for exactly the call a direct assembler would have performed *)
 Lemma inst_node_faithful : forall b id o0 o1 o2 o3 o4 o5,
-  node_ecall (inst_node b id o0 o1 o2 o3 o4 o5)
-  = EInst id (clear_reserved (p_opts b)) (p_exsig b) (p_exid b) (canon_ops o0 o1 o2 o3 o4 o5) (dup_comment (p_comment b)).
+  node_ecalls (inst_node b id o0 o1 o2 o3 o4 o5)
+  = [EInst id (clear_reserved (p_opts b)) (p_exsig b) (p_exid b) (canon_ops o0 o1 o2 o3 o4 o5) (dup_comment (p_comment b))].
 Proof.
-  intros. unfold inst_node, node_ecall. cbn [n_kind n_comment].
+  intros. unfold inst_node, node_ecalls. cbn [n_kind n_comment].
   rewrite clear_reserved_idem. rewrite canon_replayed. now destruct (p_comment b) as [[|]|].
 Qed.
 
@@ -108,21 +108,22 @@ Qed.
 Definition after_node (p : pend) (n : node) : pend :=
   match n_kind n with
   | NInst _ _ _ _ _ _ => pend0
+  | NFuncRet => pend0
   | _ => mkP (q_opts p) (q_exsig p) (q_exid p) (n_comment n)
   end.
 
 Lemma trace_replay_node : forall n p rest,
-  trace_from p (replay_node n ++ rest) = node_ecall n :: trace_from (after_node p n) rest.
+  trace_from p (replay_node n ++ rest) = node_ecalls n ++ trace_from (after_node p n) rest.
 Proof.
   intros [k c] p rest. destruct k; reflexivity.
 Qed.
 
-Lemma trace_flat_replay : forall l p, trace_from p (flat_map replay_node l) = map node_ecall l.
+Lemma trace_flat_replay : forall l p, trace_from p (flat_map replay_node l) = flat_map node_ecalls l.
 Proof.
-  induction l; intros; [reflexivity|]. cbn [flat_map map]. rewrite trace_replay_node. now rewrite IHl.
+  induction l; intros; [reflexivity|]. cbn [flat_map]. rewrite trace_replay_node. now rewrite IHl.
 Qed.
 
-Theorem trace_replay : forall b, trace (replay b) = map node_ecall (active b).
+Theorem trace_replay : forall b, trace (replay b) = flat_map node_ecalls (active b).
 Proof. intros. apply trace_flat_replay. Qed.
 
 Ltac simpl_b := cbn [fst snd remove_range add_after add_before add_node with_pool with_list with_links with_pend with_counts
@@ -131,42 +132,38 @@ Ltac simpl_b := cbn [fst snd remove_range add_after add_before add_node with_poo
 (* ================================================================== P3: editing the node list = editing the serialized sequence *)
 Theorem edit_remove : forall b i, in_range i (active b) = true ->
   let b' := fst (step b (CRemove i)) in
-  trace (replay b') = remove_at i (trace (replay b)) /\ pool b' = pool b ++ slice i i (active b).
+  trace (replay b') = flat_map node_ecalls (remove_at i (active b)) /\ pool b' = pool b ++ slice i i (active b).
 Proof.
-  intros b i H b'. subst b'. cbn [step]. rewrite H. rewrite !trace_replay. simpl_b. split; [|reflexivity].
-  now rewrite map_remove_slice.
+  intros b i H b'. subst b'. cbn [step]. rewrite H. rewrite !trace_replay. simpl_b. split; reflexivity.
 Qed.
 
 Theorem edit_remove_range : forall b i j, in_range i (active b) = true -> in_range j (active b) = true -> (i <= j)%nat ->
   let b' := fst (step b (CRemoveRange i j)) in
-  trace (replay b') = remove_slice i j (trace (replay b)) /\ pool b' = pool b ++ slice i j (active b).
+  trace (replay b') = flat_map node_ecalls (remove_slice i j (active b)) /\ pool b' = pool b ++ slice i j (active b).
 Proof.
   intros b i j H1 H2 H3 b'. subst b'. cbn [step]. rewrite H1, H2. apply Nat.leb_le in H3. rewrite H3. cbn [andb]. rewrite !trace_replay. simpl_b.
-  split; [|reflexivity]. now rewrite map_remove_slice.
+  split; reflexivity.
 Qed.
 
 Theorem edit_add_after : forall b k i n, nth_error (pool b) k = Some n -> in_range i (active b) = true ->
   let b' := fst (step b (CAddAfter k i)) in
-  trace (replay b') = insert_at (S i) (node_ecall n) (trace (replay b)) /\ pool b' = remove_at k (pool b).
+  trace (replay b') = flat_map node_ecalls (insert_at (S i) n (active b)) /\ pool b' = remove_at k (pool b).
 Proof.
-  intros b k i n H1 H2 b'. subst b'. cbn [step]. rewrite H1, H2. rewrite !trace_replay. simpl_b. split; [|reflexivity].
-  now rewrite map_insert_at.
+  intros b k i n H1 H2 b'. subst b'. cbn [step]. rewrite H1, H2. rewrite !trace_replay. simpl_b. split; reflexivity.
 Qed.
 
 Theorem edit_add_before : forall b k i n, nth_error (pool b) k = Some n -> in_range i (active b) = true ->
   let b' := fst (step b (CAddBefore k i)) in
-  trace (replay b') = insert_at i (node_ecall n) (trace (replay b)) /\ pool b' = remove_at k (pool b).
+  trace (replay b') = flat_map node_ecalls (insert_at i n (active b)) /\ pool b' = remove_at k (pool b).
 Proof.
-  intros b k i n H1 H2 b'. subst b'. cbn [step]. rewrite H1, H2. rewrite !trace_replay. simpl_b. split; [|reflexivity].
-  now rewrite map_insert_at.
+  intros b k i n H1 H2 b'. subst b'. cbn [step]. rewrite H1, H2. rewrite !trace_replay. simpl_b. split; reflexivity.
 Qed.
 
 Theorem edit_add_node : forall b k n, nth_error (pool b) k = Some n ->
   let b' := fst (step b (CAddNode k)) in
-  trace (replay b') = insert_at (cursor_pos (cursor b)) (node_ecall n) (trace (replay b)) /\ cursor b' = Some (cursor_pos (cursor b)).
+  trace (replay b') = flat_map node_ecalls (insert_at (cursor_pos (cursor b)) n (active b)) /\ cursor b' = Some (cursor_pos (cursor b)).
 Proof.
-  intros b k n H1 b'. subst b'. cbn [step]. rewrite H1. rewrite !trace_replay. simpl_b. split; [|reflexivity].
-  now rewrite map_insert_at.
+  intros b k n H1 b'. subst b'. cbn [step]. rewrite H1. rewrite !trace_replay. simpl_b. split; reflexivity.
 Qed.
 
 Theorem edit_set_cursor : forall b c, trace (replay (fst (step b (CSetCursor c)))) = trace (replay b).
@@ -181,8 +178,8 @@ Theorem update_links_list : forall b, active (update_links b) = active b /\ curs
 Proof. intros. unfold update_links. destruct (dirty b); cbn; auto. Qed.
 
 (* an emitter call is recorded at the cursor: the nodes it creates are inserted, in order, right after the cursor node *)
-Lemma add_node_trace : forall n b, map node_ecall (active (add_node n b)) = insert_at (cursor_pos (cursor b)) (node_ecall n) (map node_ecall (active b)).
-Proof. intros. cbn. now rewrite map_insert_at. Qed.
+Lemma add_node_trace : forall n b, active (add_node n b) = insert_at (cursor_pos (cursor b)) n (active b).
+Proof. reflexivity. Qed.
 
 (* ================================================================== P4: cursor discipline *)
 Definition cursor_ok (b : bstate) : Prop :=
@@ -238,6 +235,24 @@ Qed.
 Lemma in_range_lt : forall {A} i (l : list A), in_range i l = true <-> (i < length l)%nat.
 Proof. intros. unfold in_range. apply Nat.ltb_lt. Qed.
 
+Lemma length_add_node : forall n b, cursor_ok b -> length (active (add_node n b)) = S (length (active b)).
+Proof.
+  unfold cursor_ok. intros n b H. simpl_b. unfold cursor_pos. destruct (cursor b) as [c|]; apply length_insert_at; lia.
+Qed.
+
+Lemma cursor_ok_func : forall f e1 e2 b0, cursor_ok b0 ->
+  let b1 := add_node f b0 in let b2 := add_node e2 (add_node e1 b1) in
+  cursor_ok (with_list b2 (active b2) (cursor b1) (dirty b2)).
+Proof.
+  intros f e1 e2 b0 H b1 b2. pose proof (cursor_ok_add_node f b0 H) as H1. pose proof (cursor_ok_add_node e1 b1 H1) as H2.
+  assert (L : length (active b2) = S (S (length (active b1)))).
+  { unfold b2. rewrite (length_add_node e2 (add_node e1 b1) H2), (length_add_node e1 b1 H1). reflexivity. }
+  unfold cursor_ok in *.
+  change (match cursor b1 with Some c => (c < length (active b2))%nat | None => True end).
+  assert (H1' : match cursor b1 with Some c => (c < length (active b1))%nat | None => True end) by exact H1.
+  clear H1 H2. destruct (cursor b1) as [c|]; [|trivial]. lia.
+Qed.
+
 Theorem cursor_ok_step : forall b c, cursor_ok b -> cursor_ok (fst (step b c)).
 Proof.
   intros b c H. destruct c; cbn [step fst]; try exact H; try (apply cursor_ok_add_node; exact H).
@@ -250,6 +265,11 @@ Proof.
     destruct (do_bind l (add_node (mkNode (NAlign kAlignData align) None) b)) as [b2 e]. cbn [fst] in HB.
     destruct (e =? kOk); cbn [fst]; [apply cursor_ok_add_node|]; exact HB.
   - apply cursor_ok_section; exact H.
+  - destruct (l =? nlabels b); [cbn [fst]; apply cursor_ok_add_node|]; exact H.
+  - (* add_func *) apply cursor_ok_func. exact H.
+  - (* end_func *) destruct (cur_func b) as [fl|]; cbn [fst]; [|exact H]. unfold cursor_ok.
+    change (match find_index (is_func_end fl) (active b) with Some c => (c < length (active b))%nat | None => True end).
+    destruct (find_index (is_func_end fl) (active b)) eqn:E; [apply find_index_lt in E; exact E|trivial].
   - (* set cursor *) destruct i as [i|]; [destruct (in_range i (active b)) eqn:E; [|exact H]|]; unfold cursor_ok; simpl_b; [apply in_range_lt in E; exact E|trivial].
   - (* remove *) destruct (in_range i (active b)) eqn:E; [|exact H]. cbn [fst]. apply in_range_lt in E. apply cursor_ok_remove_range; [lia|exact E|exact H].
   - destruct (in_range i (active b)) eqn:E1; [|exact H]. destruct (in_range j (active b)) eqn:E2; [|exact H]. destruct (Nat.leb i j) eqn:E3; [|exact H].
@@ -305,9 +325,10 @@ Qed.
 
 (* a call rejected at record time leaves the builder untouched (const pools aside: their align node precedes the failing bind,
    exactly as the Assembler has already aligned when its bind fails) *)
-Theorem rejected_call_is_noop : forall b c, snd (step b c) <> kOk -> (forall l a d, c <> CConstPool l a d) -> fst (step b c) = b.
+Theorem rejected_call_is_noop : forall b c, snd (step b c) <> kOk -> (forall l a d, c <> CConstPool l a d) -> (forall e, c <> CEmitRejected e) ->
+  c <> CEndFunc -> fst (step b c) = b.
 Proof.
-  intros b c H HC. destruct c; cbn [step] in *; try (exfalso; apply H; reflexivity); try reflexivity.
+  intros b c H HC HR HF. destruct c; try (exfalso; eapply HR; reflexivity); cbn [step] in *; try (exfalso; apply H; reflexivity); try reflexivity.
   - unfold do_bind in *. destruct ((l <? 0) || (nlabels b <=? l)); [reflexivity|].
     destruct (existsb (is_label_id l) (active b)); [reflexivity|]. exfalso; apply H; reflexivity.
   - unfold do_embed_array in *. destruct (final_type_size ty (regsize b)); [exfalso; apply H|]; reflexivity.
@@ -316,6 +337,8 @@ Proof.
   - exfalso. eapply HC. reflexivity.
   - unfold do_section in *. destruct ((s <? 0) || (nsections b <=? s)); [reflexivity|].
     destruct (find_index (is_section_id s) (active b)); exfalso; apply H; reflexivity.
+  - destruct (l =? nlabels b); [exfalso; apply H|]; reflexivity.
+  - exfalso. eapply HF. reflexivity.
   - destruct i as [i|]; [destruct (in_range i (active b))|]; try reflexivity; exfalso; apply H; reflexivity.
   - destruct (in_range i (active b)); [exfalso; apply H|]; reflexivity.
   - destruct (in_range i (active b) && in_range j (active b) && Nat.leb i j); [exfalso; apply H|]; reflexivity.
@@ -324,3 +347,59 @@ Proof.
   - destruct (nth_error (pool b) k); [|reflexivity]. destruct (in_range i (active b)); [exfalso; apply H|]; reflexivity.
   - destruct (nth_error (pool b) k); [exfalso; apply H|]; reflexivity.
 Qed.
+
+(* an instruction refused by strict validation clears the one-shot state (options, extra register, inline comment) and changes nothing
+   else - in the Builder exactly as in the Assembler *)
+Theorem rejected_emit_resets : forall b e p,
+  let b' := fst (step b (CEmitRejected e)) in
+  snd (step b (CEmitRejected e)) = e /\ active b' = active b /\ cursor b' = cursor b /\ pool b' = pool b /\
+  p_opts b' = 0 /\ p_exsig b' = 0 /\ p_exid b' = 0 /\ p_comment b' = None /\ front p (CEmitRejected e) = (pend0, []).
+Proof. intros. cbn. repeat split. Qed.
+
+(* BaseCompiler::add_func_node(void()): the FuncNode, the exit LabelNode and the kFuncEnd sentinel are linked in, in this order, right
+   after the cursor; the cursor ends on the FuncNode (so the body is recorded between the function and its exit label); two labels are
+   registered (exit first); the pending inline comment goes to the FuncNode and the whole one-shot state is consumed *)
+Lemma insert_at_twice : forall {A} i (x y : A) l, (i <= length l)%nat -> insert_at (S i) y (insert_at i x l) = firstn i l ++ x :: y :: skipn i l.
+Proof.
+  intros A i x y l H. unfold insert_at at 2.
+  replace (S i) with (length (firstn i l ++ [x])) by (rewrite app_length, firstn_length; cbn; lia).
+  replace (firstn i l ++ x :: skipn i l) with ((firstn i l ++ [x]) ++ skipn i l) by (rewrite <- app_assoc; reflexivity).
+  rewrite insert_at_app. rewrite <- app_assoc. reflexivity.
+Qed.
+
+Lemma insert_at_thrice : forall {A} i (x y z : A) l, (i <= length l)%nat ->
+  insert_at (S (S i)) z (insert_at (S i) y (insert_at i x l)) = firstn i l ++ x :: y :: z :: skipn i l.
+Proof.
+  intros A i x y z l H. rewrite (insert_at_twice i x y l H).
+  replace (S (S i)) with (length (firstn i l ++ [x; y])) by (rewrite app_length, firstn_length; cbn; lia).
+  replace (firstn i l ++ x :: y :: skipn i l) with ((firstn i l ++ [x; y]) ++ skipn i l) by (rewrite <- app_assoc; reflexivity).
+  rewrite insert_at_app. rewrite <- app_assoc. reflexivity.
+Qed.
+
+Theorem add_func_layout : forall b, cursor_ok b ->
+  let b' := fst (step b CFunc) in
+  let pos := cursor_pos (cursor b) in
+  active b' = firstn pos (active b) ++ mkNode (NFunc (nlabels b + 1) (nlabels b)) (dup_comment (p_comment b)) :: label_node (nlabels b)
+                                   :: mkNode (NFuncEnd (nlabels b + 1)) None :: skipn pos (active b) /\
+  cursor b' = Some pos /\ nlabels b' = nlabels b + 2 /\ cur_func b' = Some (nlabels b + 1) /\
+  p_opts b' = 0 /\ p_exsig b' = 0 /\ p_exid b' = 0 /\ p_comment b' = None /\ pool b' = pool b.
+Proof.
+  intros b H b' pos. subst b'. cbn [step fst]. simpl_b. cbn [cur_func with_func with_pend with_counts p_opts p_exsig p_exid p_comment cursor_pos].
+  repeat split.
+  fold pos. assert (HP : (pos <= length (active b))%nat).
+  { unfold pos, cursor_pos, cursor_ok in *. destruct (cursor b); lia. }
+  cbn [cursor active with_func with_counts with_pend]. fold pos. change {| n_kind := NFuncEnd (nlabels b + 1); n_comment := None |} with (mkNode (NFuncEnd (nlabels b + 1)) None).
+  change {| n_kind := NFunc (nlabels b + 1) (nlabels b); n_comment := dup_comment (p_comment b) |} with (mkNode (NFunc (nlabels b + 1) (nlabels b)) (dup_comment (p_comment b))).
+  apply insert_at_thrice. exact HP.
+Qed.
+
+(* end_func(): without a function kInvalidState; otherwise the cursor goes to the function's end sentinel; the one-shot state is cleared
+   in both cases and the list is untouched *)
+Theorem end_func_spec : forall b,
+  let b' := fst (step b CEndFunc) in
+  active b' = active b /\ pool b' = pool b /\ p_opts b' = 0 /\ p_comment b' = None /\
+  match cur_func b with
+  | None => snd (step b CEndFunc) = kInvalidState /\ cursor b' = cursor b
+  | Some fl => snd (step b CEndFunc) = kOk /\ cursor b' = find_index (is_func_end fl) (active b) /\ cur_func b' = None
+  end.
+Proof. intros b. cbn [step]. destruct (cur_func b); cbn; repeat split. Qed.
